@@ -63,7 +63,7 @@ def latmio_dir_connected(R, itr, D=None, seed=None):
 
     i, j = np.where(R)
     k = len(i)
-    itr *= k
+    itr = itr * k  # not in place: a 0-d array passed as itr must stay as it was
 
     # maximal number of rewiring attempts per iteration
     max_attempts = np.round(n * k / (n * (n - 1)))
@@ -187,7 +187,7 @@ def latmio_dir(R, itr, D=None, seed=None):
 
     i, j = np.where(R)
     k = len(i)
-    itr *= k
+    itr = itr * k  # not in place: a 0-d array passed as itr must stay as it was
 
     # maximal number of rewiring attempts per iteration
     max_attempts = np.round(n * k / (n * (n - 1)))
@@ -294,7 +294,7 @@ def latmio_und_connected(R, itr, D=None, seed=None):
 
     i, j = np.where(np.tril(R))
     k = len(i)
-    itr *= k
+    itr = itr * k  # not in place: a 0-d array passed as itr must stay as it was
 
     # maximal number of rewiring attempts per iteration
     max_attempts = np.round(n * k / (n * (n - 1) / 2))
@@ -425,7 +425,7 @@ def latmio_und(R, itr, D=None, seed=None):
 
     i, j = np.where(np.tril(R))
     k = len(i)
-    itr *= k
+    itr = itr * k  # not in place: a 0-d array passed as itr must stay as it was
 
     # maximal number of rewiring attempts per iteration
     max_attempts = np.round(n * k / (n * (n - 1) / 2))
@@ -515,7 +515,7 @@ def makeevenCIJ(n, k, sz_cl, seed=None):
     rng = get_rng(seed)
     # compute number of hierarchical levels and adjust cluster size
     mx_lvl = int(np.floor(np.log2(n)))
-    sz_cl -= 1
+    sz_cl = sz_cl - 1  # not in place: a 0-d array passed as sz_cl must stay as it was
 
     # make a stupid little template
     t = np.ones((2, 2)) * 2
@@ -592,7 +592,7 @@ def makefractalCIJ(mx_lvl, E, sz_cl, seed=None):
 
     # compute N and cluster size
     n = 2**mx_lvl
-    sz_cl -= 1
+    sz_cl = sz_cl - 1  # not in place: a 0-d array passed as sz_cl must stay as it was
 
     for lvl in range(1, mx_lvl):
         s = 2**(lvl + 1)
@@ -1157,7 +1157,7 @@ def randmio_dir_connected(R, itr, seed=None):
     n = len(R)
     i, j = np.where(R)
     k = len(i)
-    itr *= k
+    itr = itr * k  # not in place: a 0-d array passed as itr must stay as it was
 
     max_attempts = np.round(n * k / (n * (n - 1)))
     eff = 0
@@ -1250,7 +1250,7 @@ def randmio_dir(R, itr, seed=None):
     n = len(R)
     i, j = np.where(R)
     k = len(i)
-    itr *= k
+    itr = itr * k  # not in place: a 0-d array passed as itr must stay as it was
 
     max_attempts = np.round(n * k / (n * (n - 1)))
     eff = 0
@@ -1334,7 +1334,7 @@ def randmio_und_connected(R, itr, seed=None):
     n = len(R)
     i, j = np.where(np.tril(R))
     k = len(i)
-    itr *= k
+    itr = itr * k  # not in place: a 0-d array passed as itr must stay as it was
 
     # maximum number of rewiring attempts per iteration
     max_attempts = np.round(n * k / (n * (n - 1)))
@@ -1440,7 +1440,7 @@ def randmio_dir_signed(R, itr, seed=None):
     R = R.copy()
     n = len(R)
 
-    itr *= n * (n - 1)
+    itr = itr * (n * (n - 1))  # not in place: a 0-d array passed as itr must stay as it was
 
     #maximal number of rewiring attempts per iter
     max_attempts = n
@@ -1520,7 +1520,7 @@ def randmio_und(R, itr, seed=None):
     n = len(R)
     i, j = np.where(np.tril(R))
     k = len(i)
-    itr *= k
+    itr = itr * k  # not in place: a 0-d array passed as itr must stay as it was
 
     # maximum number of rewiring attempts per iteration
     max_attempts = np.round(n * k / (n * (n - 1)))
@@ -1601,7 +1601,7 @@ def randmio_und_signed(R, itr, seed=None):
     R = R.copy()
     n = len(R)
 
-    itr *= int(n * (n -1) / 2)
+    itr = itr * (int(n * (n -1) / 2))  # not in place: a 0-d array passed as itr must stay as it was
 
     max_attempts = int(np.round(n / 2))
     eff = 0
